@@ -6,7 +6,8 @@ RULE = ("V: RelayE2E.tla enumerates what a (lying) relay forwards to the target:
         "tunnel, control, fresh counter over the genuine ciphertext, truncation, splice with another endpoint's ciphertext, "
         "replay, garbage) x relay record used (the sender's "
         "or another endpoint's). Each vector is executed on 4 complete nodes in a synctest bubble with the harness re-wrapping "
-        "real inner packets under the relay's real hop keys; distinct = vectors")
+        "real inner packets under the relay's real hop keys; address attribution: after the target learned a direct address for a "
+        "relayed peer, frames of the peer that come through the relay must not move the tunnel to the relay's address; distinct = vectors")
 ASSUMPTIONS = [
     "the lying relay is played with the real relay node's hop keys and relay records (in-package access); it cannot mint "
     "relay records that the endpoints never negotiated (that is C39)",
@@ -26,6 +27,11 @@ def run(ctx):
     if res.get('actions', {}).get('uncaptured'):
         from tools.check import MachineryError
         raise MachineryError('relayed tunnel could not be established in the scenario: %s' % str(res.get('extra'))[:1500])
+    # address attribution: a relayed frame never moves the endpoint's underlay address to the relay's
+    res2 = ctx.gotest('e2e', 'TestVerif_C15Roam', tags='verif e2e_testing', also=('net',), timeout=300, name='roam')
+    ctx.take_mismatches(res2)
+    if not ctx.violations:
+        ctx.require_actions('roam:direct-address-learned', 'roam:relayed-frame-after-direct', 'roam:address-kept')
     ctx.require_actions('alter:none', 'alter:flipbit', 'flip:header', 'alter:splice', 'alter:replayed', 'alter:newcounter', 'alter:recverr_self', 'alter:recverr_third', 'retype:80', 'retype:64', 'retype:96',
                         'claim:other', 'claim:own')
 
